@@ -431,8 +431,14 @@ def _kernel_len(t, facts):
             for y in items(x[2]):
                 if y[0] == 'alt' and isinstance(y[1], tuple) and y[1][0] == 'if':
                     c = strip(y[1][1])
-                    if isinstance(c, tuple) and c[0] == 'bin' and c[1] in ('Gt', 'Ne', 'Lt'):
+                    # however the test is spelled (`n > 0`, `n != 0`, `!(n == 0)`): the counter is the mutable variable it
+                    # compares with zero (that the loop runs exactly while it is positive is rule K1-K2 of C02)
+                    neg = 0
+                    while isinstance(c, tuple) and c[0] == 'un' and c[1] == 'Not':
+                        c = strip(c[2])
+                        neg += 1
+                    if isinstance(c, tuple) and c[0] == 'bin' and c[1] in ('Gt', 'Ne', 'Lt', 'Eq', 'Le', 'Ge'):
                         for side, other in ((strip(c[2]), strip(c[3])), (strip(c[3]), strip(c[2]))):
-                            if isinstance(side, tuple) and side[0] == 'mutvar' and isinstance(other, tuple) and other[0] == 'lit' and other[1] == 0:
+                            if isinstance(side, tuple) and side[0] == 'mutvar' and isinstance(other, tuple) and other[0] == 'lit' and other[1] in (0, 1):
                                 return sym.vstr(side[3])
     return None
